@@ -62,6 +62,28 @@ class MainProbe:
             yield (pos + e) % n
 
 
+class MainProbeStateful:
+    """main sampler WITHOUT set_epoch whose content changes with every iteration (like a
+    RandomSampler drawing from a generator): iteration number k yields the rotation by k"""
+
+    def __init__(self, n, extra, log):
+        self.data_source = DS(n + extra)
+        self.n = n
+        self.log = log
+        self.iters = 0
+
+    def __len__(self):
+        return self.n
+
+    def __iter__(self):
+        k = self.iters
+        self.iters += 1
+        self.log.append(("iter", k))
+        n = self.n
+        for pos in range(n):
+            yield (pos + k) % n
+
+
 def main_content(n, e, pos):
     return (pos + e) % n
 
@@ -175,8 +197,11 @@ def expected_stream(n, extra, b, drop_last, dlbs, kind, value, cfgs, t_from=0):
     return out, log
 
 
+STATEFUL = False  # set by bodies that use the sampler variant without set_epoch
+
+
 def build(n, extra, b, drop_last, dlbs, kind, value, cfgs, log, **start):
-    main = MainProbe(n, extra, log)
+    main = MainProbeStateful(n, extra, log) if STATEFUL else MainProbe(n, extra, log)
     configs = [
         InterleavedSamplerConfig(sampler=SideProbe(c[3], c[5], tag=k + 1), every_n_epochs=c[0], every_n_updates=c[1],
                                  every_n_samples=c[2], batch_size=c[4], collator=TagCollator(k + 1))
@@ -274,6 +299,8 @@ def body_whole(cfg, n, extra, b, drop_last, dlm, value, *vals):
             return False
     except Exception as e:
         return fail("exception " + type(e).__name__)
+    if STATEFUL:
+        exp_log = [x for x in exp_log if x[0] == "iter"]
     if log != exp_log:
         return fail("set_epoch / iteration order differs")
     if check_batches:
@@ -308,6 +335,16 @@ def body_whole(cfg, n, extra, b, drop_last, dlm, value, *vals):
         except Exception as e:
             return fail("resolution exception " + type(e).__name__)
     return True
+
+
+def body_whole_geo_stateful(cfg, extra, value, *vals):
+    """same as body_whole_geo with a main sampler that has no set_epoch and changes between iterations"""
+    global STATEFUL
+    STATEFUL = True
+    try:
+        return body_whole_geo(cfg, extra, value, *vals)
+    finally:
+        STATEFUL = False
 
 
 def body_whole_geo(cfg, extra, value, *vals):
